@@ -847,7 +847,18 @@ class _Unjellier:
         if not self.taster.isModuleAllowed(modName):
             raise InsecureJelly("Module not allowed: %s" % modName)
         # XXX do I need an isFunctionAllowed?
-        function = namedAny(fname)
+        # Like _unjelly_class: look the name up in the allowed module (never
+        # import anything else) and accept only what the atom promises.
+        try:
+            function = namedObject(fname)
+        except ImportError:
+            # modName is not a module: the qualified name of a nested function.
+            function = namedAny(fname)
+        if not isinstance(function, (types.FunctionType, types.BuiltinFunctionType)):
+            raise InsecureJelly(
+                "function %r unjellied to something that isn't a function: %r"
+                % (fname, function)
+            )
         return function
 
     def _unjelly_persistent(self, rest):
